@@ -8,15 +8,18 @@ from .. import flow
 PID = "C19"
 LEVEL = "other"
 EXPLANATION = (
-    "Static analysis over MIR. Decided: R1 in http::call_with_service reading the body and dispatching are dominated by the "
-    "POST arm of the method match (exactly that one arm) and by content_type_is_json being true; a POST with another "
-    "content type answers unsupported_content_type() (415), any other method method_not_allowed() (405), and neither "
-    "reaches the body or a handler; R2 (taint) in read_body the bytes of the *current frame* (Buf::chunk) flow only into "
-    "the accumulator: no branch condition depends on them except through the accumulated data, so how the body is split "
-    "into chunks cannot change a decision; R3 every alternative of is_json is compared with eq_ignore_ascii_case and is a "
-    "literal application/json[-rpc] spelling; R4 the Content-Length value is used only for the early refusal and the "
-    "capacity hint: it never controls the read loop and never replaces the size limit; R5 the read loop is left only at "
-    "end of stream or towards an error. NOT decided: hyper's framing; the accepted content-type list itself."
+    'Static analysis over MIR. Decided: R1 in http::call_with_service reading the body and dispatching are dominated '
+    'by the POST arm of the method match (exactly that one arm) and by content_type_is_json being true; a POST with '
+    'another content type answers unsupported_content_type() (415), any other method method_not_allowed() (405), and '
+    'neither reaches the body or a handler; R2 (taint) in read_body the bytes of the *current frame* (Buf::chunk) '
+    'flow only into the accumulator: no branch condition depends on them except through the accumulated data, so how '
+    'the body is split into chunks cannot change a decision; R3 every alternative of is_json is compared with '
+    'eq_ignore_ascii_case and is a literal application/json[-rpc] spelling; R4 the Content-Length value is used only '
+    'for the early refusal and the capacity hint: it never controls the read loop and never replaces the size limit; '
+    'R5 the read loop is left only at end of stream or towards an error. R4 also requires that in every caller the '
+    'limit handed to read_body is not data-dependent on request headers or size hints; R6 the GET-proxy middleware '
+    'mutates the request only on the path that also writes the JSON body (no mutation reaches a pass-through call of '
+    "the inner service). NOT decided: hyper's framing; the accepted content-type list itself."
 )
 RULE_TEXT = "instances = gate dominance, taint of per-frame bytes into branch conditions, content-type comparison sites, uses of Content-Length, loop exits"
 TRUSTED = ["rustc MIR", "hyper / http-body framing", "http::Method representation (POST is variant 2 of http::method::Inner)"]
